@@ -2,7 +2,8 @@
 /verif/harmless/<name>/patch.diff to /repo, runs the quick checks of the properties whose code it touches, reverts,
 and reports which checks raised an alarm (none should)."""
 import json, os, re, subprocess, sys, glob, concurrent.futures as cf
-ROOT='/verif'
+ROOT=os.path.dirname(os.path.dirname(os.path.abspath(__file__)))
+REPO=os.environ.get('WN_REPO','/repo')
 MAP={'_add.py':['C01','C03','C05','C06','C07','C18','C19','C10','C12'],
      '_queries.py':['C01','C04','C05','C08','C09','C10','C11','C12','C03'],
      '_core.py':['C01','C04','C09','C10','C11','C12','C13','C16','C17','C08'],
@@ -28,14 +29,14 @@ for d in dirs:
     agent=re.search(r'/R(\d\d)', d).group(1)
     pids=set(['C'+agent, 'C%02d'%(int(agent)+1)])
     for f in files: pids|=set(MAP.get(os.path.basename(f),[]))
-    a=subprocess.run(['git','-C','/repo','apply',pf],capture_output=True,text=True)
+    a=subprocess.run(['git','-C',REPO,'apply',pf],capture_output=True,text=True)
     if a.returncode!=0:
         print(d,'DOES NOT APPLY',a.stderr[:200]); continue
     try:
         with cf.ThreadPoolExecutor(8) as ex:
             out=list(ex.map(run_check,sorted(pids)))
     finally:
-        subprocess.run(['git','-C','/repo','checkout','--','.'],check=True)
+        subprocess.run(['git','-C',REPO,'checkout','--','.'],check=True)
     bad=[(p,rc,l,s) for p,rc,l,s in out if rc!=0]
     print(d,files,'checks',len(out),'ALARMS' if bad else 'quiet',bad[:4],flush=True)
     res[d]={'files':files,'checks':[o[0] for o in out],'alarms':[[p,rc,l] for p,rc,l,s in bad]}
